@@ -347,9 +347,14 @@ where
                         should_report_waited_for_reboot_duration = false;
 
                         let mut storage = self.storage_ref.lock().await;
-                        storage.remove_or_log(UPDATE_FINISH_TIME).await;
-                        storage.remove_or_log(TARGET_VERSION).await;
-                        storage.commit_or_log().await;
+                        // Only clear the record that was just reported.  If an update was installed
+                        // since this state machine started, it has overwritten the record with its
+                        // own finish time and target version, which the next boot reports.
+                        if storage.get_time(UPDATE_FINISH_TIME).await == update_finish_time {
+                            storage.remove_or_log(UPDATE_FINISH_TIME).await;
+                            storage.remove_or_log(TARGET_VERSION).await;
+                            storage.commit_or_log().await;
+                        }
                     }
                     Err(e) => {
                         warn!(
